@@ -33,6 +33,115 @@ struct Lbl {
     date: String,
 }
 
+#[derive(Debug, Clone, Deserialize)]
+struct Echo {
+    pcur: String,
+    fcur: String,
+    price: i64,
+    fee: i64,
+    qty: i64,
+    text_price: (String, String),
+    text_fee: (String, String),
+    pdf_price: String,
+    pdf_fee: String,
+    event_text: String,
+    pdf_event: String,
+    qty_text: String,
+    qty_pdf: String,
+}
+
+fn symbol(name: &str) -> String {
+    match name { "pound" => "£".into(), "dollar" => "$".into(), "euro" => "€".into(), other => other.to_string() }
+}
+
+/// C17, echoes of the input: every transaction and asset event is listed by the text report, the JSON report and the
+/// PDF with each amount in its OWN currency (Format.tla: PriceText, CurCell, EventText, QtyText).
+fn echo_checks(echos: &[Echo], cnt: &mut Counters) -> Vec<Finding> {
+    use cgt_core::{Currency, CurrencyAmount, Operation, Transaction};
+    let mut fs = Vec::new();
+    let Some(base) = NaiveDate::from_ymd_opt(2021, 1, 1) else { return fs };
+    for (ci, chunk) in echos.chunks(45).enumerate() {
+        let cur = |c: &str| Currency::from_code(c).unwrap_or(Currency::GBP);
+        let mut txs = Vec::new();
+        for (i, e) in chunk.iter().enumerate() {
+            let date = base + chrono::Duration::days(i as i64);
+            let op = if i % 2 == 0 {
+                Operation::Buy { amount: milli(e.qty), price: CurrencyAmount::new(milli(e.price), cur(&e.pcur)), fees: CurrencyAmount::new(milli(e.fee), cur(&e.fcur)) }
+            } else {
+                Operation::Sell { amount: milli(e.qty), price: CurrencyAmount::new(milli(e.price), cur(&e.pcur)), fees: CurrencyAmount::new(milli(e.fee), cur(&e.fcur)) }
+            };
+            txs.push(Transaction { date, ticker: "AAA".into(), operation: op });
+            txs.push(Transaction { date, ticker: "AAA".into(), operation: Operation::Dividend { total_value: CurrencyAmount::new(milli(e.fee), cur(&e.fcur)), tax_paid: CurrencyAmount::new(Decimal::ZERO, Currency::GBP) } });
+        }
+        let report = TaxReport { tax_years: vec![], holdings: vec![], transactions: txs };
+        let (r2, r3, r4) = (report.clone(), report.clone(), report.clone());
+        let plain = guarded(move || cgt_formatter_plain::format(&r2)).unwrap_or_default();
+        let js = guarded(move || serde_json::to_value(&r3).map_err(|e| e.to_string())).ok().and_then(|r| r.ok()).unwrap_or(json!(null));
+        let pdf = guarded(move || cgt_formatter_pdf::verif_text_runs(&r4).map_err(|e| e.to_string()));
+        cnt.add("executions", 3);
+        let runs: Vec<String> = match pdf {
+            Ok(Ok(r)) => r.iter().map(|s| s.trim().replace('\u{2212}', "-")).collect(),
+            other => { fs.push(Finding { prop: "C17".into(), kind: "pdf_failed".into(), case: ci, detail: format!("PDF generation failed for the echo report: {:?}", other.map(|r| r.map(|_| ()))), input: String::new(), data: json!({}) }); Vec::new() }
+        };
+        for (i, e) in chunk.iter().enumerate() {
+            cnt.inc("echoes");
+            if e.pcur != e.fcur { cnt.inc("mixed_currency_echoes"); }
+            let date = base + chrono::Duration::days(i as i64);
+            let duk = date.format("%d/%m/%Y").to_string();
+            let kind = if i % 2 == 0 { "BUY" } else { "SELL" };
+            let mut bad = Vec::new();
+            // ---- text
+            let want = format!("{duk} {kind} {} AAA @ {}{} ({}{} fees)", e.qty_text, symbol(&e.text_price.0), e.text_price.1, symbol(&e.text_fee.0), e.text_fee.1);
+            if !plain.lines().any(|l| l.trim() == want) {
+                let got = plain.lines().find(|l| l.starts_with(&format!("{duk} {kind} "))).unwrap_or("<no such line>");
+                bad.push(format!("text report lists {got:?}, expected {want:?}"));
+            }
+            let want_ev = format!("{duk} DIVIDEND AAA {}", pound(&e.event_text));
+            if !plain.lines().any(|l| l.trim() == want_ev) {
+                let got = plain.lines().find(|l| l.starts_with(&format!("{duk} DIVIDEND "))).unwrap_or("<no such line>");
+                bad.push(format!("text report lists {got:?}, expected {want_ev:?}"));
+            }
+            // ---- JSON: full values, own currencies
+            let jt = js["transactions"].as_array().and_then(|a| a.iter().find(|t| t["date"] == json!(date.to_string()) && t["action"] == json!(kind)));
+            match jt {
+                None => bad.push(format!("JSON report does not echo the {kind} of {date}")),
+                Some(t) => {
+                    let amt = |v: &serde_json::Value| v["amount"].as_str().and_then(|s| Decimal::from_str(s).ok());
+                    if amt(&t["price"]) != Some(milli(e.price)) || t["price"]["currency"] != json!(e.pcur) { bad.push(format!("JSON price {} expected {} {}", t["price"], milli(e.price), e.pcur)); }
+                    if amt(&t["fees"]) != Some(milli(e.fee)) || t["fees"]["currency"] != json!(e.fcur) { bad.push(format!("JSON fees {} expected {} {}", t["fees"], milli(e.fee), e.fcur)); }
+                }
+            }
+            // ---- PDF: the row of the Transactions table and of the Asset Events table
+            if !runs.is_empty() {
+                let row = (0..runs.len()).find(|p| runs[*p] == duk && runs.get(p + 1).map(|s| s.as_str()) == Some(kind));
+                match row {
+                    None => bad.push(format!("PDF Transactions table has no {kind} row dated {duk}")),
+                    Some(p) => {
+                        let cell = |o: usize| runs.get(p + o).cloned().unwrap_or_default();
+                        if cell(3) != e.qty_pdf { bad.push(format!("PDF quantity {:?}, expected {:?}", cell(3), e.qty_pdf)); }
+                        if cell(4) != pound(&e.pdf_price) { bad.push(format!("PDF price {:?}, expected {:?} (text/JSON: {}{})", cell(4), pound(&e.pdf_price), symbol(&e.text_price.0), e.text_price.1)); }
+                        if cell(5) != pound(&e.pdf_fee) { bad.push(format!("PDF fees {:?}, expected {:?} (text/JSON: {}{})", cell(5), pound(&e.pdf_fee), symbol(&e.text_fee.0), e.text_fee.1)); }
+                    }
+                }
+                let row = (0..runs.len()).find(|p| runs[*p] == duk && runs.get(p + 1).map(|s| s.as_str()) == Some("DIVIDEND"));
+                match row {
+                    None => bad.push(format!("PDF Asset Events table has no DIVIDEND row dated {duk}")),
+                    Some(p) => {
+                        let v = runs.get(p + 4).cloned().unwrap_or_default();
+                        if v != pound(&e.pdf_event) { bad.push(format!("PDF event value {v:?}, expected {:?}", pound(&e.pdf_event))); }
+                    }
+                }
+            }
+            if !bad.is_empty() {
+                fs.push(Finding { prop: "C17".into(), kind: if bad.iter().any(|b| b.starts_with("PDF")) { "pdf_echo".into() } else if bad.iter().any(|b| b.starts_with("JSON")) { "json_echo".into() } else { "text_echo".into() },
+                    case: ci * 45 + i, detail: bad.join("; "),
+                    input: format!("{date} {kind} AAA {} @ {} {} FEES {} {}", milli(e.qty).normalize(), milli(e.price).normalize(), e.pcur, milli(e.fee).normalize(), e.fcur), data: json!({}) });
+            }
+        }
+    }
+    fs
+}
+
 fn milli(k: i64) -> Decimal { Decimal::new(k, 3) }
 fn pound(s: &str) -> String { s.replace('$', "£") }
 /// "-£0.00" and "£0.00" denote the same pence amount
@@ -243,6 +352,10 @@ fn main() {
     let mut cnt = Counters::default();
     let mut findings: Vec<Finding> = Vec::new();
     for (fs, c) in results { cnt.merge(&c); findings.extend(fs); }
+    // ---- echoes of transactions and asset events
+    let echos: Vec<Echo> = cgtv::tlc::tagged_lines(&input, "ECHO").unwrap_or_default().iter().map(|l| serde_json::from_str(l).unwrap_or_else(|e| { eprintln!("bad ECHO line: {e}"); std::process::exit(2); })).collect();
+    if echos.is_empty() { eprintln!("no ECHO lines"); std::process::exit(2); }
+    findings.extend(echo_checks(&echos, &mut cnt));
     // ---- labels and dates
     for l in &lbls {
         cnt.inc("labels");
